@@ -279,22 +279,33 @@ def c09_5(ctx):
         ctx.note_fn(mod, fn)
         cfg = cfg_of(fn)
         got = {}
+        fw = Folder(repo, mod.name)
+
+        def const_bytes(a):
+            """the bytes constant assigned by statement a (literal or named module constant), else None"""
+            if isinstance(a, ast.Assign):
+                v = fw.fold(a.value)
+                return v if isinstance(v, bytes) else None
+            return None
         for n in cfg.tests():
             t = n.ast
-            if isinstance(t, ast.Compare) and isinstance(t.comparators[0], ast.Constant) and t.comparators[0].value == "mainnet":
+            if isinstance(t, ast.Compare) and len(t.ops) == 1 and fw.fold(t.comparators[0]) == "mainnet":
                 for b, l in cfg.succ[n.id]:
-                    a = cfg.nodes[b].ast
-                    if isinstance(a, ast.Assign) and isinstance(a.value, ast.Constant) and isinstance(a.value.value, bytes):
-                        got["mainnet" if (l is True) == isinstance(t.ops[0], ast.Eq) else "other"] = a.value.value
+                    v = const_bytes(cfg.nodes[b].ast)
+                    if v is not None:
+                        got["mainnet" if (l is True) == isinstance(t.ops[0], ast.Eq) else "other"] = v
             if isinstance(t, ast.Name) and t.id == "compressed":
                 for b, l in cfg.succ[n.id]:
-                    a = cfg.nodes[b].ast
-                    if isinstance(a, ast.Assign) and isinstance(a.value, ast.Constant) and isinstance(a.value.value, bytes):
-                        got["compressed" if l is True else "uncompressed"] = a.value.value
-        if got == {"mainnet": b"\x80", "other": b"\xef", "compressed": b"\x01", "uncompressed": b""}:
+                    v = const_bytes(cfg.nodes[b].ast)
+                    if v is not None:
+                        got["compressed" if l is True else "uncompressed"] = v
+        want_map = {"mainnet": b"\x80", "other": b"\xef", "compressed": b"\x01", "uncompressed": b""}
+        if got == want_map:
             out.append(ctx.ok("%s:PrivateKey.wif" % label, "prefix 80 / ef, suffix 01 iff compressed", fn, mod, key="wif-enc"))
-        else:
+        elif set(got) == set(want_map):
             out.append(ctx.bad("%s:PrivateKey.wif" % label, "WIF prefix/suffix mapping %s" % {k: v.hex() for k, v in got.items()}, fn, mod, key="wif-enc"))
+        else:
+            out.append(ctx.err("%s:PrivateKey.wif" % label, "WIF prefix / suffix selection not recognised (found %s)" % sorted(got), fn, mod))
         mod, fn = repo.func("%s:PrivateKey.parse" % label)
         ctx.note_fn(mod, fn)
         ff = Folder(repo, mod.name)
@@ -319,6 +330,23 @@ def c09_5(ctx):
             consts = {x.ast.value.value for x in cfg.nodes if x.id in live and x.kind == "stmt" and isinstance(x.ast, ast.Assign)
                       and isinstance(x.ast.value, ast.Constant) and isinstance(x.ast.value.value, str)}
             nets[v] = sorted(consts)[0] if len(consts) == 1 else sorted(consts)
+        # table form: network = TABLE.get(raw[0]) / TABLE[raw[0]] with a module-level {version byte: network} dict
+        table_lookup = None
+        for c in ast.walk(fn):
+            key = None
+            if isinstance(c, ast.Call) and isinstance(c.func, ast.Attribute) and c.func.attr == "get" and isinstance(c.func.value, ast.Name) and c.args:
+                key, tname = c.args[0], c.func.value.id
+            elif isinstance(c, ast.Subscript) and isinstance(c.value, ast.Name) and isinstance(c.ctx, ast.Load):
+                key, tname = c.slice, c.value.id
+            if key is not None and ast.unparse(key).endswith("[0]"):
+                r_ = repo.resolve_name(mod.name, tname)
+                d = repo.module(r_[0]).constants.get(r_[1]) if r_ else None
+                if isinstance(d, ast.Dict):
+                    tb = {ff.fold(k): ff.fold(v) for k, v in zip(d.keys, d.values)}
+                    if all(isinstance(k, int) and isinstance(v, str) for k, v in tb.items()):
+                        table_lookup = tb
+        if table_lookup is not None and not vtests:
+            nets = dict(table_lookup)
         if nets == {0x80: "mainnet", 0xEF: "testnet"}:
             out.append(ctx.ok("%s:PrivateKey.parse" % label, "80 → mainnet, ef → testnet", fn, mod, key="wif-dec"))
         else:
@@ -382,6 +410,16 @@ def _wif_compressed_flag(ctx, repo, label, mod, fn):
         for x in cfg.nodes:
             if x.id in live and x.kind == "stmt" and isinstance(x.ast, ast.Assign) and any(isinstance(tg, ast.Name) and tg.id == flag for tg in x.ast.targets):
                 c = ff.fold(x.ast.value)
+                if not isinstance(c, bool):
+                    # `compressed = len(raw) == 34`: evaluate with the payload length at hand
+                    import copy
+
+                    class _L(ast.NodeTransformer):
+                        def visit_Call(self, node):
+                            if isinstance(node.func, ast.Name) and node.func.id == "len":
+                                return ast.copy_location(ast.Constant(value=L), node)
+                            return self.generic_visit(node)
+                    c = ff.fold(ast.fix_missing_locations(_L().visit(copy.deepcopy(x.ast.value))))
                 if isinstance(c, bool):
                     vals.add(c)
                 else:
